@@ -104,6 +104,17 @@ Theorem label_addrem_torn_refuted :
 Proof. exact label_addrem_torn_refuted_l. Qed.
 Print Assumptions label_addrem_torn_refuted.
 
+Theorem edge_torn_refuted :
+  exists progs sched, progs = [[GCreateEdge 2 0]; [GDeleteEdge 2]] /\ sched = [0; 0; 0; 1; 1; 1; 1; 0; 0]%nat /\
+    k_edge_torn (g_next_edge g_three_nodes) progs = true /\
+    let c := grun sched (ginit g_three_nodes progs) in
+    finished c = true /\ outputs c = [[(GCreateEdge 2 0, OZ 2)]; [(GDeleteEdge 2, OB true)]] /\
+    In (2, 0, 2) (adj_visible (g_fwd (sh c)) (g_fwd_del (sh c))) /\
+    In (0, 2, 2) (adj_visible (g_bwd (sh c)) (g_bwd_del (sh c))) /\
+    ~ In 2 (map (fun x => fst (fst x)) (live_edges (sh c))).
+Proof. exact edge_torn_refuted_l. Qed.
+Print Assumptions edge_torn_refuted.
+
 Theorem prop_index_torn_refuted :
   exists progs sched, progs = [[PSetProp 0 1]; [PSetProp 0 2]] /\ sched = [0; 1; 0; 0; 0; 1; 1; 1]%nat /\
     k_prop progs = true /\
